@@ -13,6 +13,7 @@ import (
 	"os"
 	"path/filepath"
 	"regexp"
+	"runtime"
 	"runtime/debug"
 	"strconv"
 	"strings"
@@ -639,7 +640,18 @@ func doParse(req *Req) (resp Resp) {
 	}()
 	src := srcRunes(req.Src)
 	parser := syntax.NewParser(src, zh.NewParserZH())
+	// mode "alloc": how many bytes the compilation allocates (a logical measure of its work that
+	// does not depend on the machine's load) is reported in KiB
+	var m0, m1 runtime.MemStats
+	if req.Mode == "alloc" {
+		runtime.GC()
+		runtime.ReadMemStats(&m0)
+	}
 	prog, err := parser.Parse()
+	if req.Mode == "alloc" {
+		runtime.ReadMemStats(&m1)
+		resp.Ints = []int{int((m1.TotalAlloc - m0.TotalAlloc) >> 10)}
+	}
 	resp.NLines = len(parser.Lines)
 	if err != nil {
 		resp.Kind = "error"
